@@ -177,6 +177,8 @@ class HandlerSpec:
         #                                    the in-repository call chain that instantiates a shared operator template
         self.ctx_key = frozenset(self.ctx.items())
         self.instance = None               # '<module>::<factory>' of the instantiating call chain, if any
+        self.heap0 = {}                    # (name, owner qualname) -> term: closure variables holding a function value
+        #                                    chosen at subscription time (convert = getattr(codec, 'encode'), ...)
 
     @property
     def qualname(self):
@@ -214,7 +216,7 @@ class Executor:
         st.frames = [Frame(spec.fn, spec.module, env, sc.qualname)]
         st.trace = []
         st.memo = {}
-        st.heap = {}
+        st.heap = dict(spec.heap0)
         st.epoch = 0
         st.uid = 0
         st.try_depth = 0
@@ -1361,6 +1363,10 @@ class Executor:
         uid = st.new_uid()
         res = ("mcall", base, attr, tuple(allargs), uid)
         eff = Eff("call", node, mod, func=("attr", base, attr), args=allargs, result=res, method=attr, base=base)
+        if attr in ("subscribe", "subscribe_"):
+            # the locals of the subscribe function at the moment it subscribes its handlers
+            eff.d["env"] = dict(st.frames[0].env)
+            eff.d["env_owner"] = st.frames[0].name
         yield from self._may_raise(st, eff, res)
 
     def apply_func(self, node, ft, args, kwargs, st: St):
